@@ -244,7 +244,15 @@ def annotate_file(src, fspec, relfile):
                     if arg == "entry":
                         ins(toks[f.body_open].end, text)
                     elif arg == "end":
-                        ins(toks[f.body_close].start, text)
+                        last = toks[f.body_close - 1]
+                        if f.arrow is None:
+                            # unit function: make sure the last statement is terminated
+                            semi = "" if last.text in (";", "}", "{") else ";"
+                            ins(toks[f.body_close].start, semi + text)
+                        else:
+                            # value-returning function: { B }  ->  { let r_tail_ = { B }; proof.. r_tail_ }
+                            ins(toks[f.body_open].end, "\n\tlet r_tail_ = {", order=5)
+                            ins(toks[f.body_close].start, "};" + text + "\tr_tail_\n")
                     elif m or m2:
                         n = int((m or m2).group(1))
                         if n > len(f.loops):
